@@ -419,6 +419,9 @@ fn env_f(case: &Case, rec: &RefCell<Rec>, x: &[f64]) -> Vec<f64> {
         }
         idx
     };
+    if NESTED.with(|c| c.get()) {
+        run_inner(case.entry);
+    }
     let mut out = f_eval(case, x);
     for (fi, f) in case.faults.iter().enumerate() {
         let hit = match &f.key {
@@ -450,6 +453,9 @@ fn env_j(case: &Case, rec: &RefCell<Rec>, x: &[f64]) -> Vec<f64> {
         }
         idx
     };
+    if NESTED.with(|c| c.get()) {
+        run_inner(case.entry);
+    }
     let w = if case.entry.cmplx() { 2 } else { 1 };
     let mut out = j_eval(case, x).unwrap_or_else(|| vec![0.0; case.n * case.n * w]);
     for (fi, f) in case.faults.iter().enumerate() {
@@ -518,8 +524,61 @@ fn solve_once(case: &Case, guess: &[f64], max_iter: usize) -> Solved {
     solve_session(case, &[step_of(case, guess, max_iter)]).pop().unwrap()
 }
 
+thread_local! {
+    /// while set, every scripted callback first runs a small Newton solve of its own (another problem,
+    /// another dimension) on the same thread: an implicitly defined map. The solver under test must not
+    /// notice (per-thread workspaces, caches, locks held across callbacks).
+    static NESTED: std::cell::Cell<bool> = const { std::cell::Cell::new(false) };
+    /// while set, the scripted callback panics after this many evaluations (a user function that fails)
+    static FORCE_BUDGET: std::cell::Cell<Option<usize>> = const { std::cell::Cell::new(None) };
+}
+
+struct NestedGuard;
+impl Drop for NestedGuard {
+    fn drop(&mut self) {
+        NESTED.with(|c| c.set(false));
+        FORCE_BUDGET.with(|c| c.set(None));
+    }
+}
+
+/// the nested solve: same family of entry point as the outer one, a fixed well-behaved problem
+fn run_inner(entry: Entry) {
+    match entry {
+        Entry::F64 => {
+            let mut nw = Newton::<f64>::new(1.25);
+            nw.tolerance(1e-10);
+            nw.delta(1e-8);
+            nw.iterations(3);
+            let _ = nw.solve(&|x: f64| x * x - 2.0);
+        }
+        Entry::C64 => {
+            let mut nw = Newton::<Cmplx>::new(Cmplx::new(0.25, 0.75));
+            nw.tolerance(1e-10);
+            nw.delta(1e-8);
+            nw.iterations(3);
+            let _ = nw.solve(&|z: Cmplx| z * z + Cmplx::new(1.0, 0.0));
+        }
+        Entry::VecFd | Entry::VecJac => {
+            let mut nw = Newton::<Vec64>::new(Vector::<f64>::create(vec![0.875, 1.125, 0.75]));
+            nw.tolerance(1e-10);
+            nw.delta(1e-8);
+            nw.iterations(3);
+            let _ = nw.solve(&|y: Vec64| Vector::<f64>::create(vec![4.0 * y[0] + y[1] - 5.0 + 0.125 * y[2] * y[2] - 0.125, 5.0 * y[1] - y[2] - 4.0, 3.0 * y[2] + 0.25 * y[0] * y[0] - 3.25]));
+        }
+        Entry::CVecFd | Entry::CVecJac => {
+            let mut nw = Newton::<Vector<Cmplx>>::new(Vector::<Cmplx>::create(vec![Cmplx::new(0.875, 0.125), Cmplx::new(1.125, -0.125), Cmplx::new(0.75, 0.0)]));
+            nw.tolerance(1e-10);
+            nw.delta(1e-8);
+            nw.iterations(3);
+            let one = Cmplx::new(1.0, 0.0);
+            let _ = nw.solve(&|y: Vector<Cmplx>| Vector::<Cmplx>::create(vec![y[0] * 4.0 + y[1] - one * 5.0, y[1] * 5.0 - y[2] - one * 4.0, y[2] * 3.0 + y[0] * y[0] * 0.25 - one * 3.25]));
+        }
+    }
+}
+
 fn fresh_rec(case: &Case, max_iter: usize) -> Rec {
-    Rec { budget: budget_for(case, max_iter), ..Default::default() }
+    let budget = FORCE_BUDGET.with(|c| c.get()).unwrap_or_else(|| budget_for(case, max_iter));
+    Rec { budget, ..Default::default() }
 }
 
 fn finish(rec: &RefCell<Rec>, result: Result<(bool, Vec<f64>), String>, params_intact: bool) -> Solved {
@@ -900,7 +959,8 @@ fn gen_poly_real(rng: &mut Rng) -> (Vec<f64>, f64, f64) {
 fn poly_scale(rng: &mut Rng) -> f64 {
     let sign = if rng.chance(0.5) { -1.0 } else { 1.0 };
     if rng.chance(0.3) {
-        sign * log_uniform(rng, 1e-10, 1e10)
+        // (a third of them in really small or large units: Boltzmann's constant times something is 1e-23)
+        if rng.chance(0.33) { sign * log_uniform(rng, 1e-30, 1e30) } else { sign * log_uniform(rng, 1e-10, 1e10) }
     } else {
         sign * rng.uniform(0.5, 2.0)
     }
@@ -1253,6 +1313,22 @@ impl Prop for C17 {
         // history on the same thread before the object under test is even built: ANOTHER object solves
         // ANOTHER problem (a constant map) from the same guess with the same parameters. Nothing of it
         // may survive (caches keyed by point / closure address / parameters).
+        let _guard = NestedGuard;
+        // history: ANOTHER object whose user function fails (panics) part-way through a solve, caught by the
+        // caller; nothing of it may survive either (a lock poisoned, a workspace left half-written)
+        if rh.finish() % 7 == 1 {
+            let w = if e.cmplx() { 2 } else { 1 };
+            let failing = Case { func: Func::Const { c: (0..n * w).map(|i| 2.5 + i as f64).collect() }, faults: vec![], ..case.clone() };
+            FORCE_BUDGET.with(|c| c.set(Some(1 + ((rh.finish() >> 8) % 3) as usize)));
+            let _ = solve_session(&failing, &[step_of(&failing, &failing.guess, 5)]);
+            FORCE_BUDGET.with(|c| c.set(None));
+            stats.count("probe.history_other_object_callback_panicked");
+        }
+        // every callback of this case runs a Newton solve of its own first (see NESTED)
+        if rh.finish() % 5 == 2 {
+            NESTED.with(|c| c.set(true));
+            stats.count("probe.callbacks_run_a_nested_solve");
+        }
         let decoy_on = rh.finish() % 3 == 0;
         if decoy_on {
             let w = if e.cmplx() { 2 } else { 1 };
